@@ -39,7 +39,9 @@ def main():
         sig = (own.get("signatures") or [""])[0]
         sig = re.sub(r"^C\d\d \| ", "", sig).replace("|", "\\|")[:95]
         rows.append(f"| {mid} | {title(mid)} | {'caught' if ok else 'MISSED'} | {sig} |")
-    head = (f"{caught + missed} independently seeded changes, {caught} caught by the quick check of their own property"
+    na = sum(1 for r in res.values() if r.get("neutralized_by") or r.get("not_a_violation"))
+    head = (f"{caught + missed + na} independently seeded changes kept; {na} of them are not (or no longer) violations of their property "
+            f"(see their meta.json); of the other {caught + missed}, {caught} are caught by the quick check of their own property"
             f"{'' if not missed else f', {missed} missed'} (`tools/mutants.py`, `/repo` at {next(iter(res.values())).get('repo_head', '?')}).\n\n"
             "| id | change (first line of the author's notes) | quick check | first signature reported |\n|---|---|---|---|\n")
     text = head + "\n".join(rows) + "\n"
